@@ -29,6 +29,7 @@ RECORDS = {
         ("ct_cancelled", "bool", "fireTimeout has got past its resolve and run cancel"),
         ("ct_gotStatus", "bool", "gotStatus"),
         ("ct_bodyClosed", "bool", "the connection has called Request.CloseBodyStream"),
+        ("ct_writing", "bool", "the caller is inside Conn.Write, between its two selects"),
         ("ct_returned", "bool", "roundTripOnce has returned to its caller"),
         ("ct_pooled", "bool", "releaseCtx: back in clientCtxPool"),
         ("ct_lckStuck", "bool", "lck is held by a goroutine that will never release it"),
